@@ -1177,3 +1177,144 @@ Proof.
                                rewrite seq_nth by assumption; reflexivity].
     cbn. now rewrite H3.
 Qed.
+
+(* ------------------------------------------------------------------ oversized unlocking data *)
+Lemma wf_canon_push_lt : forall d, nlen d < 4294967296 -> wf_op (canon_push d).
+Proof.
+  intros d H. unfold canon_push, canon_enc.
+  destruct d as [|a [|b t]].
+  - left; reflexivity.
+  - destruct (((1 <=? a) && (a <=? 16)) || (a =? 129)) eqn:E; cbn [wf_op].
+    + right. exists a. split; [reflexivity|]. lia.
+    + unfold nlen; cbn; lia.
+  - destruct (N.leb_spec (nlen (a :: b :: t)) 75); cbn [wf_op].
+    + unfold nlen in *; cbn [length] in *; lia.
+    + destruct (N.leb_spec (nlen (a :: b :: t)) 255); cbn [wf_op]; [assumption|].
+      destruct (N.leb_spec (nlen (a :: b :: t)) 65535); cbn [wf_op]; lia.
+Qed.
+
+Lemma ser_canon_ge : forall d, nlen d <= nlen (ser_op (canon_push d)) \/ nlen d <= 1.
+Proof.
+  intros d. unfold canon_push. destruct (canon_enc d) eqn:E; cbn [ser_op]; unfold nlen;
+    try (left; cbn [length]; rewrite ?app_length; cbn [length]; lia).
+  right. unfold canon_enc in E. destruct d as [|a [|b t]]; cbn [length]; try lia.
+  destruct (nlen (a :: b :: t) <=? 75); [discriminate|].
+  destruct (nlen (a :: b :: t) <=? 255); [discriminate|].
+  destruct (nlen (a :: b :: t) <=? 65535); discriminate.
+Qed.
+
+Lemma sig_accept_big : forall der_strict checksig c pk sig,
+    520 < nlen sig \/ 520 < nlen pk -> sig_accept der_strict checksig c pk sig = false.
+  Proof.
+    intros der_strict checksig c pk sig H. unfold C27.sig_accept.
+    destruct (unsnoc sig) as [[der ht]|] eqn:U; [|reflexivity].
+    apply unsnoc_some in U. subst sig.
+    destruct H as [H|H].
+    - unfold sig_enc_ok. unfold nlen in H. rewrite app_length in H. cbn [length] in H.
+      replace ((8 <=? length der)%nat && (length der <=? 72)%nat) with false by lia.
+      now rewrite andb_false_r.
+    - replace (pk_enc_ok (c_ver c) pk) with false; [now rewrite andb_false_r|].
+      unfold nlen in H. symmetry. unfold pk_enc_ok, compressed_pk.
+      destruct pk as [|x t]; [destruct (c_ver c); reflexivity|].
+      replace (length (x :: t) =? 33)%nat with false by lia.
+      replace (length (x :: t) =? 65)%nat with false by lia.
+      destruct (c_ver c); reflexivity.
+  Qed.
+
+
+Section Big.
+  Variable hash160 sha256 : bytes -> bytes.
+  Variable der_strict : bytes -> bool.
+  Variable checksig : bytes -> bytes -> sighash -> bool.
+  Notation step := (step hash160 der_strict checksig).
+  Notation run := (run hash160 der_strict checksig).
+  Notation run_script := (run_script hash160 der_strict checksig).
+  Notation verify_input := (verify_input hash160 sha256 der_strict checksig).
+  Notation sig_accept := (sig_accept der_strict checksig).
+
+  Lemma step_push_big : forall c e d s, 520 < nlen d -> step c (OPush e d) s = Fail.
+  Proof. intros c e d s H. unfold C27.step. destruct (N.ltb_spec 520 (nlen d)); [reflexivity|lia]. Qed.
+
+  Lemma run_pushes_big : forall c l st,
+      Exists (fun d => 520 < nlen d) l -> run_script c (map canon_push l) st = Fail.
+  Proof.
+    intros c l st H. unfold C27.run_script.
+    assert (G : forall s, branch_executing (cnd s) = true -> run c (map canon_push l) s = Fail).
+    { induction H as [d l Hd|d l _ IH]; intros s Hs; cbn [map]; rewrite run_cons.
+      - unfold canon_push. now rewrite step_push_big.
+      - destruct (N.ltb_spec 520 (nlen d)) as [B|B].
+        + unfold canon_push. now rewrite step_push_big.
+        + rewrite step_canon_push by assumption. apply IH. exact Hs. }
+    now rewrite G.
+  Qed.
+
+  Lemma p2sh_deposit_verify_big : forall tx i sig pk d amount,
+      dep_wf d -> length (hash160 (ser (deposit_ops d))) = 20%nat ->
+      520 < nlen sig \/ 520 < nlen pk ->
+      verify_input tx i (deposit_script_sig sig pk (ser (deposit_ops d))) []
+                   (ser (p2sh (hash160 (ser (deposit_ops d))))) amount = Reject.
+  Proof.
+    intros tx i sig pk d amount W Hh Hbig.
+    remember (ser (deposit_ops d)) as script eqn:Escript.
+    assert (Hscr : nlen script <= 520).
+    { subst script. rewrite deposit_ser_len by assumption. destruct (dp_extra d); lia. }
+    unfold C27.verify_input, deposit_script_sig.
+    change [canon_push sig; canon_push pk; canon_push script] with (map canon_push [sig; pk; script]).
+    destruct (length (tx_ins tx) <=? i)%nat; [reflexivity|].
+    rewrite nlen_ser_p2sh by assumption. rewrite andb_false_r.
+    unfold max_script_size.
+    destruct (N.ltb_spec 10000 (nlen (ser (map canon_push [sig; pk; script])))) as [L|L]; [reflexivity|].
+    cbn [orb]. replace (10000 <? 23) with false by reflexivity.
+    assert (Ls : nlen sig <= 10000 /\ nlen pk <= 10000).
+    { cbn [map] in L. rewrite !ser_cons in L. unfold nlen in L. rewrite !app_length in L.
+      pose proof (ser_canon_ge sig). pose proof (ser_canon_ge pk). unfold nlen in *. lia. }
+    rewrite parse_ser by (cbn [map]; repeat (apply Forall_cons || apply Forall_nil); apply wf_canon_push_lt; lia).
+    rewrite parse_p2sh by assumption.
+    unfold p2sh at 1 2. cbn [classify_ops witness_program]. rewrite Hh.
+    replace (forallb is_push (map canon_push [sig; pk; script])) with true by reflexivity.
+    cbn [Nat.eqb andb negb].
+    rewrite run_pushes_big; [reflexivity|].
+    destruct Hbig; [apply Exists_cons_hd|apply Exists_cons_tl, Exists_cons_hd]; assumption.
+  Qed.
+
+  Lemma p2wsh_deposit_verify_big : forall tx i sig pk d amount,
+      dep_wf d -> length (sha256 (ser (deposit_ops d))) = 32%nat ->
+      520 < nlen sig \/ 520 < nlen pk ->
+      verify_input tx i [] (deposit_witness sig pk (ser (deposit_ops d)))
+                   (ser (p2wsh (sha256 (ser (deposit_ops d))))) amount = Reject.
+  Proof.
+    intros tx i sig pk d amount W Hh Hbig.
+    remember (ser (deposit_ops d)) as script eqn:Escript.
+    assert (Hscr : nlen script <= 520).
+    { subst script. rewrite deposit_ser_len by assumption. destruct (dp_extra d); lia. }
+    unfold C27.verify_input, deposit_witness.
+    destruct (length (tx_ins tx) <=? i)%nat; [reflexivity|].
+    rewrite nlen_ser_p2wsh. unfold max_script_size.
+    replace (nlen (sha256 script)) with 32 by (unfold nlen; lia).
+    replace (parse []) with (Some (@nil op)) by reflexivity.
+    rewrite parse_p2wsh by lia.
+    change (nlen (@nil N)) with 0.
+    replace (10000 <? 0) with false by reflexivity.
+    replace (10000 <? 2 + 32) with false by reflexivity.
+    replace (2 + 32 =? 0) with false by reflexivity. cbn [N.eqb andb orb].
+    unfold p2wsh. cbn [classify_ops witness_program].
+    rewrite !Hh. cbn [Nat.eqb Nat.leb andb negb forallb penc_eqb].
+    rewrite run_script_nil.
+    assert (S1 : (520 <? nlen (sha256 script)) = false) by (apply N.ltb_ge; unfold nlen; lia).
+    assert (M1 : minimal_push EDirect (sha256 script) = true) by (apply minimal_direct; unfold nlen; lia).
+    unfold C27.run_script.
+    rewrite run_cons. rewrite step_push_exec by (try reflexivity; unfold nlen; cbn [length N.of_nat]; lia).
+    rewrite run_cons. rewrite step_push_exec by (try reflexivity; try assumption; unfold nlen; lia).
+    rewrite run_nil. cbn [with_stack cnd stk].
+    unfold C27.verify_witness. cbn [N.eqb negb]. rewrite Hh. cbn [Nat.eqb].
+    cbn [unsnoc]. unfold max_script_size.
+    destruct (N.ltb_spec 10000 (nlen script)); [lia|].
+    rewrite bytes_eqb_refl. cbn [negb].
+    replace (parse script) with (Some (deposit_ops d))
+      by (rewrite Escript; symmetry; apply parse_ser, deposit_ops_wf; assumption).
+    cbn [rev app existsb].
+    destruct Hbig as [B|B].
+    - destruct (N.ltb_spec 520 (nlen sig)); [|lia]. now rewrite orb_true_r.
+    - destruct (N.ltb_spec 520 (nlen pk)); [|lia]. reflexivity.
+  Qed.
+End Big.
